@@ -55,6 +55,15 @@ def _replay(stem, vals):
                 back = am.System(model=text)
                 if not (np.allclose(back.atoms.pos, system.atoms.pos, atol=1e-8) and np.allclose(back.box.vects, box.vects, atol=1e-8) and np.allclose(back.box.origin, box.origin, atol=1e-8)):
                     msgs.append('System model round trip (pos unit %r) changes positions/cell (max %g)' % (pu['pos'], np.abs(back.atoms.pos - system.atoms.pos).max()))
+        at = np.arange(6.0).reshape(2, 3).T                     # (3, 2) view that is not stored row-major
+        bt = uc.value_unit(uc.model(at, 'angstrom'))
+        if bt.shape != at.shape or not np.allclose(bt, at):
+            msgs.append('a transposed (3,2) array %r reads back as %r' % (at.tolist(), np.asarray(bt).tolist()))
+        for masses in ([None, 63.55, 58.69], [26.98, None, 58.69]):
+            sm = am.System(atoms=am.Atoms(atype=[1, 3], pos=[[0., 0, 0], [1., 1, 1]]), box=am.Box.cubic(3.0), symbols=['Al', 'Cu', 'Ni'], masses=masses)
+            bm = am.System(model=sm.model().json())
+            if [None if x is None else float(x) for x in bm.masses] != masses:
+                msgs.append('masses %r read back as %r' % (masses, list(bm.masses)))
         m = uc.model(np.array([[1.0, 2.0], [3.0, 4.0]]) * uc.unit['GPa'], 'GPa')
         uc.reset_units('SI') if False else uc.reset_units(length='m', mass='kg', time='s', charge='C')
         v = uc.value_unit(m)
@@ -91,6 +100,16 @@ def uc_model(E, L):
                 stored = snp.asarray(m['value']).reshape(shp) if shp else snp.asarray(m['value'])
                 E.prove_eq('model.stored_number_is_value_in_unit[%s][%s]' % (tag, u), stored * uc.parse(u), snp.asarray(v))
                 E.prove_eq('error_unit(model(v,err)).identity[%s][%s]' % (tag, u), uc.error_unit(m), err)
+    # arrays that are not stored row-major (transposed views, Fortran order, swapped axes): the round trip is by ELEMENT INDEX, whatever the memory layout
+    for nm, mk in (('transposed', lambda a: a.T), ('fortran', lambda a: _np.asfortranarray(a).view(type(a))), ('swapaxes', lambda a: a.swapaxes(0, 1))):
+        for shp in ((3, 2), (2, 3, 2)):
+            base = E.reals('nc_%s_%s' % (nm, 'x'.join(map(str, shp))), shp)
+            v = mk(base)
+            m = uc.model(v, 'GPa', error=v)
+            back = uc.value_unit(m)
+            E.prove('value_unit.shape[non_contiguous,%s,%s]' % (nm, shp), _np.shape(back) == _np.shape(v) and list(m['shape']) == list(_np.shape(v)))
+            E.prove_eq('value_unit(model(v)).identity[non_contiguous,%s,%s]' % (nm, shp), back, _np.array(v.tolist(), dtype=object))
+            E.prove_eq('error_unit(model(v,err)).identity[non_contiguous,%s,%s]' % (nm, shp), uc.error_unit(m), _np.array(v.tolist(), dtype=object))
     # write under one working-unit configuration, read under another (fresh symbolic base units)
     v = E.reals('w', (2, 3))
     m = uc.model(v, 'GPa')
@@ -144,6 +163,15 @@ def system_model(E, L):
             for j in range(3):
                 E.prove('roundtrip.cell[%s][%d,%d]' % (tag, i, j), bv[i, j] == realconst(V[i][j]))
             E.prove('roundtrip.origin[%s][%d]' % (tag, i), bo[i] == realconst(o[i]))
+    # symbols and masses are positional per atom type, also when only some are set
+    for syms, masses in ((['Al', 'Cu', 'Ni'], [None, 63.55, 58.69]), (['Al', 'Cu', 'Ni'], [26.98, None, 58.69]), ([None, 'Cu', None], [None, 63.55, None]), (['Al', None, 'Ni'], [26.98, 63.55, None]),
+                         (['Al', 'Cu', 'Ni'], [None, None, None])):
+        box = Box(vects=V, origin=o)
+        system = System(atoms=Atoms(atype=[1, 3], pos=pos.copy()), box=box, symbols=syms, masses=masses)
+        back = System(model=system.model())
+        tagm = 'symbols=%r,masses=%r' % (syms, masses)
+        E.prove('roundtrip.partial_symbols[%s]' % tagm, list(back.symbols) == syms)
+        E.prove('roundtrip.partial_masses[%s]' % tagm, [None if x is None else float(x) for x in back.masses] == masses)
     E.canary('system.model.canary', pos[0, 0] == 0)
 
 
